@@ -52,7 +52,8 @@ example : depends (.waitany 1 1 [{ kind := .COMM_WAIT, aid := 1, comm := 7, mbox
 Full-strength statement of the property (DESIGN §8 C39):
   theorem indep_commute : ∀ s t₁ t₂, aid t₁ ≠ aid t₂ → enabled s t₁ → enabled s t₂ → depends t₁ t₂ = some false →
       enabled (exec s t₁) t₂ ∧ enabled (exec s t₂) t₁ ∧ exec (exec s t₁) t₂ ≈ exec (exec s t₂) t₁
-It is FALSE on the current code for BARRIER_ASYNC_LOCK × BARRIER_ASYNC_LOCK (`barrier_lock_lock_counterexample`).
+It is FALSE on the current code for BARRIER_ASYNC_LOCK × BARRIER_ASYNC_LOCK (`barrier_lock_lock_counterexample`) and for
+COMM_TEST × COMM_ASYNC_SEND/RECV on an unpaired comm (`comm_send_test_counterexample`).
 Proved below group by group: mutex (all 25 pairs of kinds), semaphore (all 9 pairs).  Not proved: barrier
 (counterexample), comm, actor, condvar groups and cross-group pairs.
 `≈` is `State.equiv` (pointwise equality: the transitions of these groups allocate no identifiers). -/
@@ -151,6 +152,29 @@ theorem barrier_lock_lock_counterexample :
     depends (.base t1) (.base t2) = some false ∧ enabled s t1 = true ∧ enabled s t2 = true ∧
     (exec (exec s t1) t2).bar 0 ≠ (exec (exec s t2) t1).bar 0 ∧
     enabled (exec (exec s t1) t2) w1 = true ∧ enabled (exec (exec s t2) t1) w1 = false := by decide
+
+/-- **Comm group: EVAL_COMM_SEND_TEST does not commute** (same shape for EVAL_COMM_RECV_TEST).  Actor 1 posted a receive
+(comm 7 on mailbox 0, no sender yet) and is about to test it; actor 2 is about to send on mailbox 0.  The arm answers
+"independent" because actor 2 is neither the sender (-1) nor the receiver (1) recorded in the test, but the send pairs
+comm 7: the test fails if it goes first and succeeds if it goes second. -/
+theorem comm_send_test_counterexample :
+    let s : CommSem.CState := { sender := fun _ => -1, receiver := fun c => if c = 7 then 1 else -1,
+                                recvq := fun m => if m = 0 then [7] else [], ret := fun _ => 0, exists_ := fun _ => true }
+    let t1 : Base := { kind := .COMM_TEST, aid := 1, comm := 7, sender := -1, receiver := 1, mbox := 0 }
+    let t2 : Base := { kind := .COMM_ASYNC_SEND, aid := 2, comm := 0, mbox := 0 }
+    depends (.base t1) (.base t2) = some false ∧ CommSem.enabled s t1 = true ∧ CommSem.enabled s t2 = true ∧
+    (CommSem.exec (CommSem.exec s t1) t2).ret 1 = 0 ∧ (CommSem.exec (CommSem.exec s t2) t1).ret 1 = 1 := by decide
+
+/-- RANDOM row overrides EVAL_T1_ACTOR_CREATE: the first transition of a created actor, when it is a RANDOM, is declared
+independent of the ACTOR_CREATE that creates that actor, although the creation *enables* it.  This is not a violation of
+the C39 statement (which speaks about co-enabled pairs) but of the usual definition of independence; relevant to C38. -/
+theorem random_create_enables_counterexample :
+    let s : CommSem.CState := { sender := fun _ => -1, receiver := fun _ => -1, recvq := fun _ => [], ret := fun _ => 0,
+                                exists_ := fun a => a == 1 }
+    let t1 : Base := { kind := .ACTOR_CREATE, aid := 1, child := 3 }
+    let t2 : Base := { kind := .RANDOM, aid := 3, min := 0, max := 1 }
+    depends (.base t1) (.base t2) = some false ∧ CommSem.enabled s t2 = false ∧
+    CommSem.enabled (CommSem.exec s t1) t2 = true := by decide
 
 -- non-vacuity of the commute theorems: a declared-independent, co-enabled LOCK/UNLOCK pair on a contended mutex
 example :
